@@ -1195,6 +1195,8 @@ class Stage:
                 raise Exception("ocp.set_der missing for quadrature state defined at " + str(self._meta[k]))
         quad = veccat(*der)
         alg = veccat(*self._alg)
+        if alg.numel()>0 and self.nz==0:
+            raise Exception("Algebraic equations (add_alg) were given, but there are no algebraic variables (ocp.algebraic) to solve them for.")
         t = self.t
         expr = vertcat(ode,alg,quad)
         if not depends_on(expr,t):
